@@ -60,6 +60,57 @@ Theorem C09_unrestricted_hold_refuted :
 Proof. exists 3, hold_witness. vm_compute. split; reflexivity. Qed.
 
 (* ------------------------------------------------------------------------------------------ *)
+(* 1b. with the protocol of the build loop: I4 and I5c                                         *)
+(* ------------------------------------------------------------------------------------------ *)
+(* inv_full_b = inv_b && I4b (a product file of a SUCCEEDED step is not PLANNED or OUTDATED)
+   && I5c (a RUNNING step has no stored hash).  protocol_ok: hold / amend / (re)start only for a step
+   that is not SUCCEEDED (its job is in flight), and a successful run reports a hash for every
+   output that was still PLANNED.  From ANY state satisfying the invariant: *)
+Theorem C09_full_inv_preserved :
+  forall s o, inv_full_b s = true -> protocol_ok s o = true -> inv_full_b (apply_op s o) = true.
+Proof. exact inv_full_preserved. Qed.
+
+Theorem C09_reachable_inv_full :
+  forall cap ops, protocol_ok_run (init_st cap) ops = true ->
+                  all_prefixes_ok inv_full_b (init_st cap) ops = true.
+Proof. exact reachable_inv_full. Qed.
+
+(* I4 as stated in the property: "a step marked succeeded has all its outputs built" *)
+Theorem C09_succeeded_outputs_built :
+  forall s, inv_full_b s = true -> inv_succeeded_b s = true.
+Proof. exact succeeded_outputs_built. Qed.
+
+(* The protocol clause on successful runs is needed: a run that is recorded as successful while one
+   of its outputs was never reported stays SUCCEEDED with a PLANNED output (Step.mark_completed
+   does not look at PLANNED products; the executor turns a missing output into a failure). *)
+Definition missing_output_witness : list op :=
+  [OpDeclareStatic root_key [[112]];
+   OpUpdateHashes CConfirmed [([112], Some 1)];
+   OpDefineStep root_key [115] [[112]] [] [[111]] [] NPlan;
+   OpDispatch [115];
+   OpResetForRerun [115];
+   OpExecEnd [115] [] CSucceeded [] true false].
+Theorem C09_success_without_output_refuted :
+  exists cap ops, inv_b (run_ops ops (init_st cap)) = true /\ protocol_run_b (init_st cap) ops = true /\
+                  inv_succeeded_b (run_ops ops (init_st cap)) = false.
+Proof. exists 3, missing_output_witness. vm_compute. repeat split; reflexivity. Qed.
+
+Example C09_protocol_ok_nonvacuous :
+  protocol_ok_run (init_st 3)
+    [OpDeclareStatic root_key [[112]];
+     OpUpdateHashes CConfirmed [([112], Some 1)];
+     OpDefineStep root_key [115] [[112]] [] [[111]] [] NPlan;
+     OpDispatch [115];
+     OpResetForRerun [115];
+     OpAmendStep [115] [[120]] [] [[121]] [];
+     OpHold [115];
+     OpExecEnd [115] [] CSucceeded [([111], Some 5); ([121], Some 6)] true false;
+     OpMarkStepPending [115];
+     OpDispatch [115];
+     OpResetToPending [115]] = true.
+Proof. vm_compute. reflexivity. Qed.
+
+(* ------------------------------------------------------------------------------------------ *)
 (* 2. detached <-> not reachable from the root through creator links                           *)
 (* ------------------------------------------------------------------------------------------ *)
 Theorem C09_detached_iff_unreachable :
